@@ -168,8 +168,14 @@ class NakPdu(AbstractFileDirectiveBase):
     def file_flag(self, file_flag: LargeFileFlag):
         """Set the file size. This changes the length of the packet when packed as well
         which is handled by this function"""
+        old_file_flag = self.pdu_file_directive.file_flag
         self.pdu_file_directive.file_flag = file_flag
-        self._calculate_directive_field_len()
+        try:
+            self._calculate_directive_field_len()
+        except ValueError:
+            # Invalid flag or PDU data field too long for it: refuse, nothing has changed
+            self.pdu_file_directive.file_flag = old_file_flag
+            raise
 
     def _calculate_directive_field_len(self):
         if self.pdu_file_directive.file_flag == LargeFileFlag.NORMAL:
@@ -194,11 +200,18 @@ class NakPdu(AbstractFileDirectiveBase):
     def segment_requests(self, segment_requests: Optional[List[Tuple[int, int]]]):
         """Update the segment requests. This changes the length of the packet when packed as well
         which is handled by this function."""
+        old_segment_requests = getattr(self, "_segment_requests", None)
         if segment_requests is None:
             self._segment_requests = []
         else:
             self._segment_requests: List[Tuple[int, int]] = segment_requests  # type: ignore
-        self._calculate_directive_field_len()
+        try:
+            self._calculate_directive_field_len()
+        except ValueError:
+            # PDU data field would become too long: refuse the assignment, nothing has changed
+            if old_segment_requests is not None:
+                self._segment_requests = old_segment_requests
+            raise
 
     def pack(self) -> bytearray:
         """Pack the NAK PDU.
